@@ -13,6 +13,8 @@ func (g *Gen) lemmaObligations(l *Lemma) ([]*Obligation, error) {
 	c := g.globalCtx(l.Pkg)
 	c.spec.Name = "lemma:" + l.Name
 	c.spec.Props = l.Props
+	c.lemma = l
+	c.lemmaVars = map[string]TV{}
 	st := &State{locals: c.entry.locals, heaps: map[string]Term{}}
 	env := &Env{c: c, st: st, old: c.entry, vars: map[string]TV{}, calleePkg: l.Pkg}
 	if len(l.Stmts) == 0 {
@@ -30,6 +32,8 @@ func (g *Gen) lemmaObligations(l *Lemma) ([]*Obligation, error) {
 			return nil, err
 		}
 		env.vars[v.Name] = TV{c.freshTyped("lv_"+v.Name, t), t}
+		c.lemmaVars[v.Name] = env.vars[v.Name]
+		c.assumeRefs(env.vars[v.Name].t, t, st)
 	}
 	reach := tTrue
 	nAssert := 0
